@@ -118,6 +118,13 @@ func gen(a Args, out *Out) {
 			universe = rng.Range(1, 3)
 		}
 		nops := rng.Range(1, maxOps)
+		// half of the histories draw values from a tiny set, so that re-puts with an unchanged
+		// value (which must still count as use) are frequent
+		valRange := 1000
+		if rng.Bool() {
+			valRange = 3
+			out.Count("histories-with-few-values")
+		}
 		var ops []Sx
 		evictions, resizes, purges := 0, 0, 0
 		size := 0 // rough size tracking only for the non-triviality rule
@@ -126,7 +133,7 @@ func gen(a Args, out *Out) {
 			var op Sx
 			switch d := rng.Intn(100); {
 			case d < 38:
-				op = Ints(0, k, int64(rng.Intn(1000)))
+				op = Ints(0, k, int64(rng.Intn(valRange)))
 				size++
 				if size > capacity {
 					evictions++
